@@ -289,10 +289,15 @@ func (g *gen) numParam(cands []int, allowHash bool) (string, []val) {
 		return fmt.Sprint(n), nil
 	case x < 92 || !allowHash:
 		g.ctx.Hist("param:v")
-		if g.r.Chance(8) {
-			return "v", []val{vNil} // nil: the default
+		letter := "v"
+		if x%5 == 0 { // V is v (derived from the draw already made: the streams of the seeds stay what they were)
+			letter = "V"
+			g.ctx.Hist("param:V")
 		}
-		return "v", []val{vInt(int64(n))}
+		if g.r.Chance(8) {
+			return letter, []val{vNil} // nil: the default
+		}
+		return letter, []val{vInt(int64(n))}
 	default:
 		g.ctx.Hist("param:#")
 		return "#", nil
@@ -311,6 +316,10 @@ func (g *gen) chrParam(pool []byte) (string, []val) {
 	g.ctx.Hist("param:v")
 	if c == ',' || c == '\'' {
 		c = '_' // slip's reader does not read these after #\
+	}
+	if c == '.' || c == ' ' {
+		g.ctx.Hist("param:V")
+		return "V", []val{vChr(c)}
 	}
 	return "v", []val{vChr(c)}
 }
@@ -960,7 +969,7 @@ func printable(s string) bool {
 // count and allocate gigabytes; such combinations are not run (larger integers overflow int and are refused
 // by slip at once).
 func riskyWidth(p piece) bool {
-	hasV := strings.Contains(p.ctl, "v")
+	hasV := strings.ContainsAny(p.ctl, "vV")
 	var mid func(v val) bool
 	lo, hi := big.NewInt(2000), new(big.Int).Lsh(big.NewInt(1), 64)
 	mid = func(v val) bool {
@@ -969,7 +978,7 @@ func riskyWidth(p piece) bool {
 			a := new(big.Int).Abs(v.z)
 			return a.Cmp(lo) > 0 && a.Cmp(hi) < 0
 		case kStr:
-			if strings.Contains(v.s, "v") && strings.Contains(v.s, "~") {
+			if strings.ContainsAny(v.s, "vV") && strings.Contains(v.s, "~") {
 				hasV = true
 			}
 		case kList:
